@@ -32,26 +32,6 @@ func (b vC18Bit) String() string {
 	return fmt.Sprintf("(%d,%d,%s,%s)", b.Row, b.Col, ts, p)
 }
 
-// vgtGenStamp draws a timestamp (whole minutes) in 2019..2021 (+-2 units around earlier stamps), biased to calendar edges, optionally near an anchor.
-func vgtGenStamp(t *rapid.T, label string, anchors []time.Time) time.Time {
-	if len(anchors) > 0 && rapid.IntRange(0, 2).Draw(t, label+".near") > 0 {
-		a := anchors[rapid.IntRange(0, len(anchors)-1).Draw(t, label+".anchor")]
-		u := rapid.SampledFrom([]rune{'H', 'H', 'D', 'D', 'M', 'Y'}).Draw(t, label+".du")
-		k := rapid.IntRange(-2, 2).Draw(t, label+".dk")
-		return vgtAdd(vgtTrunc(a, 'H'), u, k)
-	}
-	y := rapid.IntRange(2019, 2021).Draw(t, label+".y")
-	m := rapid.SampledFrom([]int{1, 2, 2, 3, 6, 11, 12, 12}).Draw(t, label+".m")
-	dim := vgtDate(y, time.Month(m)+1, 0, 0).Day()
-	d := rapid.SampledFrom([]int{1, 2, 15, 28, dim - 1, dim}).Draw(t, label+".d")
-	if d > dim {
-		d = dim
-	}
-	h := rapid.SampledFrom([]int{0, 1, 5, 11, 12, 13, 17, 22, 23}).Draw(t, label+".h")
-	min := rapid.SampledFrom([]int{0, 0, 0, 1, 30, 59}).Draw(t, label+".min")
-	return time.Date(y, time.Month(m), d, h, min, 0, 0, time.UTC)
-}
-
 func vC18ViewCount(bits []vC18Bit, q pilosa.TimeQuantum) int {
 	seen := map[string]bool{}
 	for _, b := range bits {
@@ -90,7 +70,7 @@ func TestVerifC18_API(t *testing.T) {
 		}
 		c := vkit.NewCase().Key("api", q, noStd, fmt.Sprint(bits))
 		defer c.Done()
-		c.Class("q:" + string(q)).ClassIf(noStd, "noStandardView")
+		c.Class("q:"+string(q)).ClassIf(noStd, "noStandardView")
 
 		index, drop := srv.newIndex(t, pilosa.IndexOptions{})
 		defer drop()
